@@ -479,7 +479,7 @@ fn mem_modules(p: &Program, root: &str) -> Vec<(String, String)> {
 // ---------------------------------------------------------------------------
 // Configurations
 
-pub const CLI_MODES: [&str; 4] = ["options", "conf", "conf+options", "missing-main"];
+pub const CLI_MODES: [&str; 5] = ["options", "conf", "conf+options", "missing-main", "conf-bare-name"];
 pub const BASES: [&str; 5] = ["none", "valid", "not-yaml", "not-openapi", "missing"];
 
 #[derive(Clone, Copy, Debug, PartialEq, Eq)]
@@ -493,7 +493,7 @@ pub struct Cfg {
 /// broken bases only with the sentinel target.
 pub fn configs(reduced: bool) -> Vec<Cfg> {
     let mut v = Vec::new();
-    for cli in 0..3 {
+    for cli in [0usize, 1, 2, 4] {
         for base in 0..BASES.len() {
             for sentinel in [false, true] {
                 if reduced && base >= 2 && !(sentinel && (cli == 0 || base == 4)) {
@@ -702,7 +702,15 @@ fn check_cli_case(dir: &TempDir, p: &Program, cfg: Cfg) -> Result<(&'static str,
             if let Some(b) = base_name {
                 a.extend([s("-b"), s(b)]);
             }
+            // a configuration file nobody asked for sits in the working directory
+            std::fs::write(d.join("decoy-base.yaml"), VALID_BASE.replace("title: Base", "title: Decoy")).unwrap();
+            std::fs::write(&conf, "[api]\nmain = \"nomain.oal\"\ntarget = \"decoy-out.yaml\"\nbase = \"decoy-base.yaml\"\n").unwrap();
             (a, d.clone())
+        }
+        4 => {
+            // the configuration file named without any directory part, from its own directory
+            std::fs::write(&conf, format!("[api]\nmain = \"main.oal\"\ntarget = \"out.yaml\"\n{base_line}")).unwrap();
+            (vec![s("-c"), s("oal.toml")], d.clone())
         }
         1 => {
             std::fs::write(&conf, format!("[api]\nmain = \"main.oal\"\ntarget = \"out.yaml\"\n{base_line}")).unwrap();
@@ -1390,7 +1398,7 @@ impl Engine for C13 {
         }
     }
     fn rule(&self) -> String {
-        "programs: for success and each failure class {lexical, syntax, unbound, duplicate, kind-mismatch, infinite-type, bad-recursion, status-literal, annotation-yaml} hand-written fragments (declarations holding the error + the statements of main that use them; quick: the first 4 per class, thorough: all 4-9) in every embedding (quick: main, after valid code with multi-byte text, imported module, qualified import, CRLF, the error at the very end of a text without final newline; thorough also: before valid code, module with its own import, bottom of a diamond), plus 9 missing-import and 8 import-cycle programs on 1-3 modules; lexical and syntax fragments include ones whose residual tree is complete. Phase 1 places every program in its class with the libraries (module::load + compile + eval over an in-memory loader). Phase 2 runs the real oal-cli on program x {options only (cwd = sources), --conf only (cwd elsewhere), conf naming a wrong main and target overridden by options, non-existent main} x base {none, valid, not YAML, YAML but not an OpenAPI object, missing file} x target {absent, sentinel bytes}: exit status must be 0 exactly for an accepted program with a valid configuration and 1 otherwise (never a signal or another code); on 0 the target parses as openapiv3::OpenAPI and equals, as YAML values, the document of the in-process libraries on the same module URLs (Builder::with_base for the valid base); on 1 the target is byte-identical to what it was (or still absent), stderr is not empty and, for an error in the sources, carries `<url of the module the error is in>:<line>:<column>` with the line and column of the span the libraries attach to the error (for an import cycle: the url of any module of the program); for single-module sources without base oal_wasm::compile succeeds iff the CLI does and gives the same document up to hash-* names (they digest the module URL). Phase 4 starts one oal-lsp on two workspace folders holding every ordered pair of one single-module program per class: each folder gets >= 1 diagnostic iff its program is rejected. Phase 3 starts the real oal-lsp on the sources as a workspace folder with oal.toml, initialises, sends one request and counts the diagnostics a client sees (last publication per URI): >= 1 iff the CLI (options only, no base) fails; the same after main.oal is opened with its own text and a second request (a second evaluation of unchanged sources); and for an accepted program with imports >= 1 after the first imported module was removed from disk and main.oal re-sent. distinct = distinct (class, configuration, exit, first stderr line, document) observations. states = (program, configuration) pairs, transitions = process runs".into()
+        "programs: for success and each failure class {lexical, syntax, unbound, duplicate, kind-mismatch, infinite-type, bad-recursion, status-literal, annotation-yaml} hand-written fragments (declarations holding the error + the statements of main that use them; quick: the first 4 per class, thorough: all 4-9) in every embedding (quick: main, after valid code with multi-byte text, imported module, qualified import, CRLF, the error at the very end of a text without final newline; thorough also: before valid code, module with its own import, bottom of a diamond), plus 9 missing-import and 8 import-cycle programs on 1-3 modules; lexical and syntax fragments include ones whose residual tree is complete. Phase 1 places every program in its class with the libraries (module::load + compile + eval over an in-memory loader). Phase 2 runs the real oal-cli on program x {options only (cwd = sources, where an oal.toml naming another main, target and base lies unused), --conf only (cwd elsewhere), conf naming a wrong main and target overridden by options, non-existent main, -c oal.toml as a bare file name from its own directory} x base {none, valid, not YAML, YAML but not an OpenAPI object, missing file} x target {absent, sentinel bytes}: exit status must be 0 exactly for an accepted program with a valid configuration and 1 otherwise (never a signal or another code); on 0 the target parses as openapiv3::OpenAPI and equals, as YAML values, the document of the in-process libraries on the same module URLs (Builder::with_base for the valid base); on 1 the target is byte-identical to what it was (or still absent), stderr is not empty and, for an error in the sources, carries `<url of the module the error is in>:<line>:<column>` with the line and column of the span the libraries attach to the error (for an import cycle: the url of any module of the program); for single-module sources without base oal_wasm::compile succeeds iff the CLI does and gives the same document up to hash-* names (they digest the module URL). Phase 4 starts one oal-lsp on two workspace folders holding every ordered pair of one single-module program per class: each folder gets >= 1 diagnostic iff its program is rejected. Phase 3 starts the real oal-lsp on the sources as a workspace folder with oal.toml, initialises, sends one request and counts the diagnostics a client sees (last publication per URI): >= 1 iff the CLI (options only, no base) fails; the same after main.oal is opened with its own text and a second request (a second evaluation of unchanged sources); and for an accepted program with imports >= 1 after the first imported module was removed from disk and main.oal re-sent. distinct = distinct (class, configuration, exit, first stderr line, document) observations. states = (program, configuration) pairs, transitions = process runs".into()
     }
     fn assumptions(&self) -> Vec<String> {
         vec![
